@@ -981,7 +981,8 @@ func (n *Node) IsSame(other *Node) bool {
 		n.Address == other.Address &&
 		n.Datacenter == other.Datacenter &&
 		reflect.DeepEqual(n.TaggedAddresses, other.TaggedAddresses) &&
-		reflect.DeepEqual(n.Meta, other.Meta)
+		reflect.DeepEqual(n.Meta, other.Meta) &&
+		reflect.DeepEqual(n.Locality, other.Locality)
 }
 
 // ValidateNodeMetadata validates a set of key/value pairs from the agent
